@@ -52,6 +52,7 @@ type c11Cfg struct {
 	Domains []string    // configured cookie domains
 	Rewritten [][2]string // (browser host, Host header seen by the proxy): front proxy that rewrites Host, no --reverse-proxy
 	Fronted bool
+	BackendLogout bool    // --backend-logout-url=<provider>/logout?id_token_hint={id_token}
 	ReverseProxy bool     // --reverse-proxy=true: the front proxy passes the public host in X-Forwarded-Host
 	p2      *vfProxy      // Redis store: a second instance (replica) with the same flags sharing the same Redis
 	p       *vfProxy
@@ -143,6 +144,10 @@ func c11Configs(run *vfRun, w *vfWorld) []*c11Cfg {
 					if cpath != "/" {
 						c.Flags = append(c.Flags, "--cookie-path="+cpath, "--proxy-prefix=/app/oauth2")
 						c.Prefix, c.Base = "/app/oauth2", "/app/"
+					} else {
+						// half of the configurations call the provider's logout endpoint on sign-out (the rig's provider answers 404; the proxy only logs that)
+						c.Flags = append(c.Flags, "--backend-logout-url="+w.IdP.Issuer+"/logout?id_token_hint={id_token}")
+						c.BackendLogout = true
 					}
 					c.Label = fmt.Sprintf("%s/name=%s/domain=%s/path=%s", store, c11NameClass(name), dom, cpath)
 					out = append(out, c)
@@ -228,6 +233,11 @@ type c11Hist struct {
 	// host_sign_out, which is what its cookie jar goes by). Empty = the proxy sees the browser's host.
 	ProxyHost string `json:"host_header_seen_by_proxy,omitempty"`
 	Fault     string `json:"redis_del_fault,omitempty"`
+	// Expired: the session's ExpiresOn is moved into the past (load + save through the store) right before the sign-out; no refresh is due.
+	Expired bool `json:"session_expired_at_sign_out,omitempty"`
+	// BothForms (cookie store): the jar holds the current plain session cookie AND the full set of parts of an earlier, split
+	// generation at sign-out (the response that carried the split session reached the browser after the one with the smaller session).
+	BothForms bool `json:"jar_holds_plain_cookie_and_parts,omitempty"`
 	// Replica (Redis store): a second instance sharing the same Redis serves one request right before the sign-out (which goes to
 	// the first instance); the replays after the sign-out go to the second instance first, immediately.
 	Replica bool `json:"second_instance_serves_before_and_after_sign_out,omitempty"`
@@ -280,6 +290,7 @@ func c11Histories(run *vfRun, cfg *c11Cfg, ci int) []c11Hist {
 	var out []c11Hist
 	n := 0
 	var users []int // consecutive logins of the histories made next (nil = one login)
+	both := false   // the histories made next end with a jar holding both cookie forms
 	mk := func(p0 int, k int, refreshAt []int, dir []int) {
 		h := c11Hist{K: k, RefreshAt: refreshAt}
 		if len(users) > 1 {
@@ -303,6 +314,14 @@ func c11Histories(run *vfRun, cfg *c11Cfg, ci int) []c11Hist {
 			h.HostLogin, h.HostOut, h.ProxyHost = rw[0], rw[0], rw[1]
 		}
 		h.Replica = n%2 == 0
+		h.BothForms = both
+		atOut := false
+		for _, x := range refreshAt {
+			if x == k {
+				atOut = true
+			}
+		}
+		h.Expired = cfg.BackendLogout && !atOut && n%3 == 1
 		n++
 		out = append(out, h)
 	}
@@ -320,6 +339,14 @@ func c11Histories(run *vfRun, cfg *c11Cfg, ci int) []c11Hist {
 			mk(p0, 2, []int{2}, []int{-1})
 			mk(p0, 1, []int{0, 1}, []int{+3, -3})
 		}
+	}
+	// cookie store: a split session shrinks to one that fits the plain cookie; at sign-out the jar holds both forms
+	if cfg.Store == "cookie" {
+		both = true
+		mk(2, 2, []int{1}, []int{-2})
+		mk(3, 2, []int{0}, []int{-3})
+		mk(1, 3, []int{1}, []int{-1})
+		both = false
 	}
 	// several consecutive logins in one browser without a sign-out in between: as different users and as the same user
 	for p0 := 0; p0 < 4; p0++ {
@@ -596,6 +623,7 @@ func (r *c11Runner) one(cfg *c11Cfg, h c11Hist) {
 	for _, x := range h.RefreshAt {
 		refreshAt[x] = true
 	}
+	expireNext := false // the next call of age moves ExpiresOn into the past instead of CreatedAt
 	age := func(host string) bool {
 		req := httptest.NewRequest("GET", cfg.Prefix+"/userinfo", nil)
 		req.Host = wire(host)
@@ -611,7 +639,12 @@ func (r *c11Runner) one(cfg *c11Cfg, h c11Hist) {
 			return false
 		}
 		t := time.Now().Add(-10 * time.Minute)
-		s.CreatedAt = &t
+		if expireNext {
+			t = time.Now().Add(-time.Minute)
+			s.ExpiresOn = &t
+		} else {
+			s.CreatedAt = &t
+		}
 		rw := httptest.NewRecorder()
 		if err := p.P.SaveSession(rw, req, s); err != nil {
 			run.Inconclusive("ageing: save failed")
@@ -684,6 +717,37 @@ func (r *c11Runner) one(cfg *c11Cfg, h c11Hist) {
 		return
 	}
 	target := cfg.Prefix + "/sign_out"
+	if h.Expired {
+		expireNext = true
+		if !age(h.HostOut) {
+			return
+		}
+		expireNext = false
+		run.Count("expired_at_sign_out_with_backend_logout", 1)
+		trace = append(trace, "session's ExpiresOn moved one minute into the past (no refresh due)")
+	}
+	if h.BothForms {
+		// the jar gets back the full set of parts of an earlier split generation next to the current plain cookie
+		cur := c11SessionIn(b.Jar.For(h.HostOut, target, false))
+		if len(cur) == 1 && cur[0].Name == cfg.Name {
+			for gi := len(gens) - 1; gi >= 0; gi-- {
+				g, ok := gens[gi], len(gens[gi]) >= 2
+				var raws []string
+				for _, c := range g {
+					if c.Name == cfg.Name || c.Domain != cur[0].Domain || c.Path != cur[0].Path {
+						ok = false
+					}
+					raws = append(raws, c.Raw)
+				}
+				if ok {
+					b.Jar.Apply(h.HostOut, target, raws)
+					run.Count("sign_outs_with_plain_cookie_and_parts_in_jar", 1)
+					trace = append(trace, fmt.Sprintf("the response of generation %d (%d parts) reaches the browser late: the jar now holds the plain cookie and %d parts", gi, len(g), len(g)))
+					break
+				}
+			}
+		}
+	}
 	presented := c11SessionIn(b.Jar.For(h.HostOut, target, false))
 	if len(presented) == 0 {
 		run.Inconclusive("no session cookie to present at sign-out")
@@ -733,6 +797,11 @@ func (r *c11Runner) one(cfg *c11Cfg, h c11Hist) {
 	issuedBefore := r.tab.Issued(sub)
 	n0 := len(b.Jar.Archive)
 	so := send(req)
+	if h.Fault != "" {
+		for k := range keys {
+			r.faults.del(k) // the fault lasts for the sign-out request only: the store is healthy again for everything that follows
+		}
+	}
 	// the sign-out response has been received: from here on nothing the browser ever held may authenticate on ANY instance
 	replicaStale := ""
 	if replica && so.Code == 302 {
@@ -778,6 +847,12 @@ func (r *c11Runner) one(cfg *c11Cfg, h c11Hist) {
 	if cfg.p2 != nil && h.Replica && h.Fault == "" {
 		cell += "|two-instances"
 	}
+	if h.Expired {
+		cell += "|expired+backend-logout"
+	}
+	if h.BothForms {
+		cell += "|plain+parts-in-jar"
+	}
 	run.Eval(cell)
 	run.Count("histories", 1)
 	if h.ProxyHost != "" {
@@ -797,6 +872,9 @@ func (r *c11Runner) one(cfg *c11Cfg, h c11Hist) {
 			}
 		}
 		switch {
+		case keyLeft != "" && so.Code < 400 && strings.HasPrefix(h.Fault, "GET:"):
+			run.Violation("c11:success-answer-although-session-still-stored-after-read-fault", fmt.Sprintf("[%s] reads of the ticket failed during the sign-out request (%s; a DEL would have succeeded): sign-out answered %d but the session is still stored", cfg.Label, h.Fault, so.Code),
+				detail(map[string]interface{}{"redis_key_still_present": keyLeft, "status": so.Code, "location": so.Location()}))
 		case keyLeft != "" && so.Code < 400 && h.Fault != "":
 			run.Violation("c11:success-answer-although-store-delete-failed", fmt.Sprintf("[%s] the Redis DEL of the ticket failed (%s) and the session is still stored, but sign-out answered %d instead of an error", cfg.Label, h.Fault, so.Code),
 				detail(map[string]interface{}{"redis_key_still_present": keyLeft, "status": so.Code, "location": so.Location()}))
@@ -804,7 +882,12 @@ func (r *c11Runner) one(cfg *c11Cfg, h c11Hist) {
 			run.Violation("c11:stored-session-survives-sign-out", fmt.Sprintf("[%s] sign-out answered %d but the ticket's key is still in Redis", cfg.Label, so.Code),
 				detail(map[string]interface{}{"redis_key_still_present": keyLeft, "status": so.Code}))
 		}
-		if h.Fault != "" {
+		if strings.HasPrefix(h.Fault, "GET:") {
+			run.Count("read_fault_histories", 1)
+			if so.Code == 302 {
+				run.Count("read_fault_histories_answered_302", 1)
+			}
+		} else if h.Fault != "" {
 			run.Count("fault_histories", 1)
 			if keyLeft != "" {
 				run.Count("fault_histories_key_survived", 1)
@@ -1143,9 +1226,17 @@ func TestVerif_C11(t *testing.T) {
 	hub := vfNewRedisHub(w.Redis())
 	defer hub.Close()
 	hub.SetHooks(func(c *vfRedisCmd) vfRedisDecision {
-		if c.Op == "DEL" {
+		if c.Op == "DEL" || c.Op == "GET" {
 			if kind, ok := faults.get(c.Key); ok {
-				return vfRedisDecision{Fault: &vfRedisFault{Kind: kind}}
+				// "GET:<kind>" = reads of this ticket fail (a DEL would succeed); "<kind>" = its DEL fails
+				if op := "DEL"; strings.HasPrefix(kind, "GET:") {
+					op, kind = "GET", strings.TrimPrefix(kind, "GET:")
+					if c.Op == op {
+						return vfRedisDecision{Fault: &vfRedisFault{Kind: kind}}
+					}
+				} else if c.Op == op {
+					return vfRedisDecision{Fault: &vfRedisFault{Kind: kind}}
+				}
 			}
 		}
 		return vfRedisDecision{}
@@ -1207,6 +1298,11 @@ func TestVerif_C11(t *testing.T) {
 					h.Fault = faultKinds[(hi+2)%len(faultKinds)]
 					jobs = append(jobs, job{cfg: c, h: h})
 				}
+				// reads of the ticket fail during the sign-out request only (a delete would succeed); healed before the replays
+				if hi%2 == 0 || run.Env.Thorough() {
+					h.Fault = []string{"GET:err-before", "GET:drop-before", "GET:nil"}[(hi/2)%3]
+					jobs = append(jobs, job{cfg: c, h: h})
+				}
 				continue
 			}
 			jobs = append(jobs, job{cfg: c, h: h})
@@ -1250,13 +1346,21 @@ func TestVerif_C11(t *testing.T) {
 		run.Violation("c11:stored-sessions-left-after-all-browsers-signed-out", fmt.Sprintf("%d session key(s) are still in Redis although every browser that could hold a ticket for them signed out successfully, e.g. %s", run.Counter("redis_keys_left_unaccounted"), vfTrunc(orphans[0], 60)),
 			map[string]interface{}{"keys": orphans, "note": "key space compared before the first login and after the last sign-out; keys of browsers whose sign-out failed or whose history aborted are excluded"})
 	}
-	injected := 0
+	injected, injectedGet := 0, 0
 	for _, c := range hub.Log() {
 		if c.Op == "DEL" && c.Fault != "" {
 			injected++
 		}
+		if c.Op == "GET" && c.Fault != "" {
+			injectedGet++
+		}
 	}
 	run.Count("injected_del_faults", int64(injected))
+	run.Count("injected_get_faults", int64(injectedGet))
+	if injectedGet == 0 || run.Counter("expired_at_sign_out_with_backend_logout") == 0 || run.Counter("sign_outs_with_plain_cookie_and_parts_in_jar") == 0 {
+		fmt.Printf("INCONCLUSIVE property=C11 reason=no read fault injected / no expired session at a sign-out with backend logout / no jar with both cookie forms observed\n")
+		t.Fail()
+	}
 	if injected == 0 || run.Counter("fault_histories_key_survived") == 0 {
 		fmt.Printf("INCONCLUSIVE property=C11 reason=no DEL fault was injected / no stored session survived a failed delete: the error clause was not exercised\n")
 		t.Fail()
